@@ -10,6 +10,7 @@ QUICK = [
                 "MaxStk": "2", "MaxStmts": "2"}, None),
     ("rebind3", {"Fam": "<- FamRebind", "LitPool": "<- Lits1", "Names": "<- Names2", "BinOps": "<- Ops1", "MaxN": "1",
                  "MaxStk": "1", "MaxStmts": "3"}, None),
+    ("conlet", dict([f for f in c01.QUICK if f[0] == "conlet"][0][1]), None),    # annotated lets bind once as well
     ("scopemod", {"Fam": "<- FamScopeMod", "LitPool": "<- Lits2", "Names": "<- Names3", "BinOps": "<- Ops2",
                   "FldNames": "<- Flds2", "Prelude": "<- PreData", "MaxN": "6", "MaxStk": "2", "MaxCtx": "2",
                   "MaxStmts": "2", "MaxModStmts": "2"}, (1500, 60)),
@@ -20,8 +21,9 @@ QUICK = [
 THOROUGH = [
     ("rebind", {"Fam": "<- FamRebind", "LitPool": "<- Lits3", "Names": "<- Names3", "BinOps": "<- Ops2", "MaxN": "3",
                 "MaxStk": "2", "MaxStmts": "2"}, None),
-    ("scopemod", dict(QUICK[1][1]), (40000, 60)),
-    ("scopefn", dict(QUICK[2][1]), (60000, 70)),
+    ("conlet", dict([f for f in c01.THOROUGH if f[0] == "conlet"][0][1]), None),
+    ("scopemod", dict([f for f in QUICK if f[0] == "scopemod"][0][1]), (40000, 60)),
+    ("scopefn", dict([f for f in QUICK if f[0] == "scopefn"][0][1]), (60000, 70)),
     ("sim", dict([f for f in c01.QUICK if f[0] == "sim"][0][1]), (40000, 80)),
 ]
 
